@@ -85,26 +85,29 @@ Section Proofs.
                    build_commitment upd_mon set_mp_raa set_mp_cs set_hs] in *.
 
   (** R only looks at these components *)
-  Definition core (s : st) := (holder_next s, cp_next s, mp_raa s, cp_cur_point s, cp_next_point s, closed s, hsk s).
+  Definition hflags (s : st) := (chan_ready (hsk s), our_ready (hsk s), their_ready (hsk s), wfb (hsk s)).
+  Definition core (s : st) := (holder_next s, cp_next s, mp_raa s, cp_cur_point s, cp_next_point s, closed s, hflags s).
 
-  Ltac core_eq := unfold core; repeat match goal with x := _ : RevokeLog.st _ |- _ => subst x end; sf; rewrite ?orb_false_r, ?orb_true_r;
+  Ltac core_eq := unfold core, hflags; repeat match goal with x := _ : RevokeLog.st _ |- _ => subst x end; sf; rewrite ?orb_false_r, ?orb_true_r;
     repeat match goal with H : closed _ = false |- _ => rewrite H; clear H end; reflexivity.
 
   Lemma R_core s s' g : core s = core s' -> R s g -> R s' g.
   Proof.
-    unfold core. intros E HR. injection E as E1 E2 E3 E4 E5 E6 E7. destruct HR.
-    constructor; unfold ann_phase in *; rewrite <- ?E1, <- ?E2, <- ?E3, <- ?E4, <- ?E5, <- ?E6, <- ?E7; assumption.
+    unfold core, hflags. intros E HR. injection E as E1 E2 E3 E4 E5 E6 E7 E8 E9 E10. destruct HR.
+    constructor; unfold ann_phase in *;
+      rewrite <- ?E1, <- ?E2, <- ?E3, <- ?E4, <- ?E5, <- ?E6, <- ?E7, <- ?E8, <- ?E9, <- ?E10; assumption.
   Qed.
 
   (** clearing [mp_raa] (or keeping it) never hurts *)
   Lemma R_mpraa_weaken s s' g :
-    (holder_next s, cp_next s, cp_cur_point s, cp_next_point s, closed s, hsk s) =
-    (holder_next s', cp_next s', cp_cur_point s', cp_next_point s', closed s', hsk s') ->
+    (holder_next s, cp_next s, cp_cur_point s, cp_next_point s, closed s, hflags s) =
+    (holder_next s', cp_next s', cp_cur_point s', cp_next_point s', closed s', hflags s') ->
     (mp_raa s' = true -> mp_raa s = true \/ holder_next s < INITIAL - 1) ->
     R s g -> R s' g.
   Proof.
-    intros E Hm HR. injection E as E1 E2 E4 E5 E6 E7. destruct HR.
-    constructor; unfold ann_phase in *; rewrite <- ?E1, <- ?E2, <- ?E4, <- ?E5, <- ?E6, <- ?E7; try assumption.
+    unfold hflags. intros E Hm HR. injection E as E1 E2 E4 E5 E6 E7 E8 E9 E10. destruct HR.
+    constructor; unfold ann_phase in *;
+      rewrite <- ?E1, <- ?E2, <- ?E4, <- ?E5, <- ?E6, <- ?E7, <- ?E8, <- ?E9, <- ?E10; try assumption.
     intros Hc Hm'. destruct (Hm Hm'); auto.
   Qed.
 
@@ -113,9 +116,13 @@ Section Proofs.
     chk_all g evs = Some g1 -> p_vh g1 = holder_next s + 1 -> holder_next s <= INITIAL - 1 ->
     exists g', chk_all g (snd (close s evs)) = Some g' /\ R (fst (close s evs)) g'.
   Proof.
-    intros Hc Hv Hn. unfold close. cbn [fst snd]. rewrite chk_all_app, Hc. cbn [chk_all chk].
-    rewrite Hv, Z.eqb_refl. eexists. split; [reflexivity|].
-    constructor; sf; intros; try lia; try discriminate; try reflexivity.
+    intros Hc Hv Hn. unfold close. cbn [fst snd].
+    destruct (chan_ready (hsk s) || negb (wfb (hsk s))).
+    - rewrite chk_all_app, Hc. cbn [chk_all chk].
+      rewrite Hv, Z.eqb_refl. eexists. split; [reflexivity|].
+      constructor; sf; intros; try lia; try discriminate; try reflexivity.
+    - exists g1. split; [exact Hc|].
+      constructor; sf; intros; try lia; try discriminate; try reflexivity.
   Qed.
 
   Lemma restore_sim s g : closed s = false -> R s g ->
@@ -160,6 +167,125 @@ Section Proofs.
   Ltac cl := match goal with Hvh : p_vh ?g = holder_next ?s + 1 |- _ =>
     apply (close_sim s g [] g); [reflexivity|exact Hvh|assumption] end.
 
+  Lemma recv_channel_ready_sim s g p : R s g -> closed s = false ->
+    exists g', chk_all g (snd (recv_channel_ready s p)) = Some g' /\ R (fst (recv_channel_ready s p)) g'.
+  Proof.
+    intros HR0 Hc. pose proof HR0 as HR. destruct HR as [Hhn Hvh Hsg Hmp Hst Hrv Hcur Hnxt Hpre Hkeys Hflags].
+    assert (Hsigned : p_signed g = false).
+    { destruct (p_signed g) eqn:E; [rewrite Hsg in Hc by reflexivity; discriminate|reflexivity]. }
+    unfold RevokeLog.recv_channel_ready.
+    destruct (disconnected s); [cbn [fst snd chk_all]; exists g; split; [reflexivity|]; eapply R_core; [|exact HR0]; core_eq|].
+    assert (Hrecon : exists g', chk_all g (snd (if opt_point_eqb point point_eqb
+                (if cp_next s =? INITIAL - 1 then cp_next_point s
+                 else if cp_next s =? INITIAL - 2 then cp_cur_point s
+                 else match sec1 (hsk s) with Some sc => Some (pub sc) | None => None end) p
+              then (s, []) else close s [])) = Some g' /\
+             R (fst (if opt_point_eqb point point_eqb
+                (if cp_next s =? INITIAL - 1 then cp_next_point s
+                 else if cp_next s =? INITIAL - 2 then cp_cur_point s
+                 else match sec1 (hsk s) with Some sc => Some (pub sc) | None => None end) p
+              then (s, []) else close s [])) g').
+    { destruct (opt_point_eqb _ _ _ _); [exists g; split; [reflexivity|exact HR0]|cl]. }
+    destruct (chan_ready (hsk s)) eqn:Hready; cbn [fst snd]; [exact Hrecon|].
+    destruct (their_ready (hsk s)) eqn:Htheir, (our_ready (hsk s)) eqn:Hour; cbn [andb negb fst snd];
+      try exact Hrecon.
+    + (* THEIR and OUR both set while awaiting: excluded *)
+      pose proof (Hflags Hc) as Hf. rewrite ?Hready, ?Hour, ?Htheir in Hf. destruct (Hf eq_refl eq_refl) as [_ Hx]. congruence.
+    + (* OUR_CHANNEL_READY only *)
+      pose proof (Hflags Hc) as Hf. rewrite ?Hready, ?Hour, ?Htheir in Hf. destruct (Hf eq_refl eq_refl) as [Hw _]. rewrite Hw. cbn [negb fst snd].
+      assert (Hph : ann_phase s = false) by (unfold ann_phase; rewrite Hready, Htheir; reflexivity).
+      destruct (Hpre Hc Hph) as (Hcn & pn & Epn & Apn).
+      assert (Hfresh : existsb (fun kp : Z * point => fst kp =? cp_next s) (p_ann g) = false).
+      { destruct (existsb _ (p_ann g)) eqn:E; [|reflexivity]. apply (Hkeys Hc) in E. rewrite Hph in E. lia. }
+      cbn [chk_all chk]. rewrite Hsigned, Hfresh. eexists. split; [reflexivity|].
+      constructor; unfold ann_phase; sf; cbn [chan_ready their_ready our_ready wfb orb]; intros; try lia; try discriminate; auto.
+      * exists pn. split; [exact Epn|]. apply announced_cons_mono. exact Apn.
+      * exists p. split; [reflexivity|]. apply announced_cons_same.
+      * unfold has_key in *. cbn [existsb fst] in *. destruct (Z.eqb_spec (cp_next s) k); [lia|]. cbn [orb] in *.
+        match goal with H : existsb _ _ = true |- _ => apply (Hkeys Hc) in H; rewrite Hph in H end. lia.
+    + (* no flag (or only WAITING_FOR_BATCH): the first channel_ready *)
+      assert (Hph : ann_phase s = false) by (unfold ann_phase; rewrite Hready, Htheir; reflexivity).
+      destruct (Hpre Hc Hph) as (Hcn & pn & Epn & Apn).
+      assert (Hfresh : existsb (fun kp : Z * point => fst kp =? cp_next s) (p_ann g) = false).
+      { destruct (existsb _ (p_ann g)) eqn:E; [|reflexivity]. apply (Hkeys Hc) in E. rewrite Hph in E. lia. }
+      cbn [chk_all chk]. rewrite Hsigned, Hfresh. eexists. split; [reflexivity|].
+      constructor; unfold ann_phase; sf; cbn [chan_ready their_ready our_ready wfb orb]; intros; try lia; try discriminate; auto.
+      * exists pn. split; [exact Epn|]. apply announced_cons_mono. exact Apn.
+      * exists p. split; [reflexivity|]. apply announced_cons_same.
+      * unfold has_key in *. cbn [existsb fst] in *. destruct (Z.eqb_spec (cp_next s) k); [lia|]. cbn [orb] in *.
+        match goal with H : existsb _ _ = true |- _ => apply (Hkeys Hc) in H; rewrite Hph in H end. lia.
+  Qed.
+
+  Lemma reest_core_sim s g nl nr sc : R s g -> closed s = false ->
+    exists g', chk_all g (snd (reest_core secret point s nl nr sc)) = Some g' /\
+               R (fst (reest_core secret point s nl nr sc)) g'.
+  Proof.
+    intros HR0 Hc. pose proof HR0 as HR. destruct HR as [Hhn Hvh Hsg Hmp Hst Hrv Hcur Hnxt Hpre Hkeys Hflags].
+    assert (Hsigned : p_signed g = false).
+    { destruct (p_signed g) eqn:E; [rewrite Hsg in Hc by reflexivity; discriminate|reflexivity]. }
+    unfold reest_core. rewrite ?Hc.
+    cbv zeta.
+    destruct ((nl <? 0) || (nr <? 0)) eqn:Hrange; [exists g; split; [reflexivity|exact HR0]|].
+    destruct (negb (disconnected s)); [apply (close_sim s g [] g); [reflexivity|exact Hvh|exact Hhn]|].
+    destruct ((nl =? 0) || (INITIAL <=? nl) || (INITIAL <=? nr)); [apply (close_sim s g [] g); [reflexivity|exact Hvh|exact Hhn]|].
+    destruct ((0 <? nr) && match sc with SecGarbage => true | _ => false end);
+      [apply (close_sim s g [] g); [reflexivity|exact Hvh|exact Hhn]|].
+    destruct ((0 <? nr) && (INITIAL - (holder_next s + 1) <? nr)).
+    { destruct (match sc with SecMatch => true | _ => false end);
+        [|apply (close_sim s g [] g); [reflexivity|exact Hvh|exact Hhn]].
+      cbn [fst snd chk_all]. exists g. split; [reflexivity|].
+      constructor; sf; intros; try assumption; try discriminate; try reflexivity. }
+    destruct ((0 <? nr) && ((nr =? INITIAL - (holder_next s + 1)) || (nr + 1 =? INITIAL - (holder_next s + 1)))
+              && negb match sc with SecMatch => true | _ => false end);
+      [apply (close_sim s g [] g); [reflexivity|exact Hvh|exact Hhn]|].
+    destruct (Z.ltb_spec (nr + 1) (INITIAL - (holder_next s + 1))) as [_|Hnr];
+      [exists g; split; [reflexivity|exact HR0]|].
+    set (s0 := mkSt secret point (holder_next s) (cp_next s) (awaiting_rr s) false (mon_in_progress s)
+                    (mp_raa s) (mp_cs s) (raa_first s) (cp_cur_point s) (cp_next_point s) false (hsk s)).
+    assert (HR1 : R s0 g) by (eapply R_core; [|exact HR0]; core_eq).
+    assert (Hc0 : closed s0 = false) by reflexivity.
+    destruct (chan_ready (hsk s)) eqn:Hready; cbn [negb].
+    2:{ destruct ((negb (our_ready (hsk s)) || mon_in_progress s) && negb (nr =? 0));
+          [apply (close_sim s0 g [] g); [reflexivity|exact Hvh|exact Hhn]|].
+        cbn [fst snd chk_all]. exists g. split; [reflexivity|exact HR1]. }
+    (* required_revoke *)
+    assert (Hrev : match reest_revoke secret point s0 nr (INITIAL - (holder_next s + 1)) with
+                   | None => True
+                   | Some (s1, raa_evs) =>
+                       closed s1 = false /\ exists g1, chk_all g raa_evs = Some g1 /\ R s1 g1
+                   end).
+    { unfold reest_revoke.
+      destruct (Z.eqb_spec nr (INITIAL - (holder_next s + 1))) as [Enr|Nnr].
+      - split; [reflexivity|]. exists g. split; [reflexivity|].
+        eapply R_mpraa_weaken; [| |exact HR1]; sf; [reflexivity|discriminate].
+      - destruct (Z.eqb_spec (nr + 1) (INITIAL - (holder_next s + 1))) as [Enr1|_]; [|exact I].
+        assert (Hlt : holder_next s < INITIAL - 1) by lia.
+        destruct (mon_in_progress s0).
+        + split; [reflexivity|]. exists g. split; [reflexivity|].
+          eapply R_mpraa_weaken; [| |exact HR1]; sf; [reflexivity|intros _; right; exact Hlt].
+        + split; [reflexivity|]. exists g. split; [|exact HR1].
+          unfold last_raa. cbn [chk_all chk holder_next s0]. rewrite Hsigned, Hvh.
+          replace (holder_next s + 2 =? holder_next s + 1 + 1) with true by lia.
+          replace (holder_next s + 2 <=? INITIAL) with true by lia. reflexivity. }
+    destruct (reest_revoke secret point s0 nr (INITIAL - (holder_next s + 1))) as [[s1 raa_evs]|];
+      [|apply (close_sim s0 g [] g); [reflexivity|exact Hvh|exact Hhn]].
+    destruct Hrev as (Hc1 & g1 & Hg1 & HRs1).
+    (* commitment retransmission *)
+    unfold reest_commit.
+    match goal with |- context [if ?c then _ else _] => destruct c end.
+    { cbn [fst snd]. exists g1. split; [exact Hg1|]. eapply R_core; [|exact HRs1]. core_eq. }
+    match goal with |- context [if ?c then _ else _] => destruct c end.
+    { destruct (mon_in_progress s1).
+      - cbn [fst snd]. exists g1. split; [exact Hg1|]. eapply R_core; [|exact HRs1]. core_eq.
+      - cbn [fst snd]. exists g1. split; [|exact HRs1].
+        rewrite chk_all_app, Hg1. unfold last_cs. cbn [chk_all chk].
+        assert (Hs1 : p_signed g1 = false).
+        { destruct (p_signed g1) eqn:E; [pose proof (R_signed _ _ HRs1 E); congruence|reflexivity]. }
+        rewrite Hs1, (R_st _ _ HRs1 Hc1).
+        replace (cp_next s1 =? cp_next s1 + 2 - 2) with true by lia. reflexivity. }
+    eapply close_sim; [exact Hg1|exact (R_vh _ _ HRs1)|exact (R_hn _ _ HRs1)].
+  Qed.
+
   Lemma step_sim s g o : R s g ->
     exists g', chk_all g (snd (step s o)) = Some g' /\ R (fst (step s o)) g'.
   Proof.
@@ -171,7 +297,7 @@ Section Proofs.
     pose proof HR as HR0. destruct HR as [Hhn Hvh Hsg Hmp Hst Hrv Hcur Hnxt Hpre Hkeys Hflags].
     assert (Hsigned : p_signed g = false).
     { destruct (p_signed g) eqn:E; [rewrite Hsg in Hc by reflexivity; discriminate|reflexivity]. }
-    destruct o as [sync|sig_ok nsig nnd htlc_ok need_cs sync|sec np chain_ok commit sync|sync| |p| | | |nl nr sc| | | ].
+    destruct o as [sync|sig_ok nsig nnd htlc_ok need_cs sync|sec np chain_ok commit sync|sync| |p| | | | |nl nr sc| | | ].
     - (* OCommit *)
       destruct (can_generate_new_commitment secret point s).
       + apply (maybe_restore_sim sync _ g g []); [exact Hc|reflexivity|].
@@ -212,7 +338,7 @@ Section Proofs.
           rewrite Z.eqb_refl, (Hst Hc). replace (cp_next s + 2 =? cp_next s + 1 + 1) with true by lia.
           rewrite Apc. cbn [andb]. cbn [chk_all chk p_signed p_rv p_st p_ann p_vh]. rewrite Hfresh. reflexivity.
         * set (h' := if cp_next s + 1 =? INITIAL - 1
-                     then mkHs secret true (our_ready (hsk s)) (their_ready (hsk s)) (wfb (hsk s)) (Some sec)
+                     then mkHs secret point true (our_ready (hsk s)) (their_ready (hsk s)) (wfb (hsk s)) (Some sec) (pending_ready (hsk s))
                      else hsk s).
           assert (Hr' : chan_ready h' = true) by (unfold h'; destruct (cp_next s + 1 =? INITIAL - 1); [reflexivity|exact Hready]).
           assert (HRn : R (mkSt secret point (holder_next s) (cp_next s - 1) false false (mon_in_progress s)
@@ -235,47 +361,7 @@ Section Proofs.
       destruct (mon_in_progress s); [apply restore_sim; assumption|].
       exists g. split; [reflexivity|exact HR0].
     - (* ORecvChannelReady *)
-      unfold RevokeLog.recv_channel_ready.
-      destruct (disconnected s); [exists g; split; [reflexivity|exact HR0]|].
-      assert (Hrecon : exists g', chk_all g (snd (if opt_point_eqb point point_eqb
-                  (if cp_next s =? INITIAL - 1 then cp_next_point s
-                   else if cp_next s =? INITIAL - 2 then cp_cur_point s
-                   else match sec1 (hsk s) with Some sc => Some (pub sc) | None => None end) p
-                then (s, []) else close s [])) = Some g' /\
-               R (fst (if opt_point_eqb point point_eqb
-                  (if cp_next s =? INITIAL - 1 then cp_next_point s
-                   else if cp_next s =? INITIAL - 2 then cp_cur_point s
-                   else match sec1 (hsk s) with Some sc => Some (pub sc) | None => None end) p
-                then (s, []) else close s [])) g').
-      { destruct (opt_point_eqb _ _ _ _); [exists g; split; [reflexivity|exact HR0]|cl]. }
-      destruct (chan_ready (hsk s)) eqn:Hready; cbn [fst snd]; [exact Hrecon|].
-      destruct (their_ready (hsk s)) eqn:Htheir, (our_ready (hsk s)) eqn:Hour; cbn [andb negb fst snd];
-        try exact Hrecon.
-      + (* THEIR and OUR both set while awaiting: excluded *)
-        pose proof (Hflags Hc) as Hf. rewrite ?Hready, ?Hour, ?Htheir in Hf. destruct (Hf eq_refl eq_refl) as [_ Hx]. congruence.
-      + (* OUR_CHANNEL_READY only *)
-        pose proof (Hflags Hc) as Hf. rewrite ?Hready, ?Hour, ?Htheir in Hf. destruct (Hf eq_refl eq_refl) as [Hw _]. rewrite Hw. cbn [negb fst snd].
-        assert (Hph : ann_phase s = false) by (unfold ann_phase; rewrite Hready, Htheir; reflexivity).
-        destruct (Hpre Hc Hph) as (Hcn & pn & Epn & Apn).
-        assert (Hfresh : existsb (fun kp : Z * point => fst kp =? cp_next s) (p_ann g) = false).
-        { destruct (existsb _ (p_ann g)) eqn:E; [|reflexivity]. apply (Hkeys Hc) in E. rewrite Hph in E. lia. }
-        cbn [chk_all chk]. rewrite Hsigned, Hfresh. eexists. split; [reflexivity|].
-        constructor; unfold ann_phase; sf; cbn [chan_ready their_ready our_ready wfb orb]; intros; try lia; try discriminate; auto.
-        * exists pn. split; [exact Epn|]. apply announced_cons_mono. exact Apn.
-        * exists p. split; [reflexivity|]. apply announced_cons_same.
-        * unfold has_key in *. cbn [existsb fst] in *. destruct (Z.eqb_spec (cp_next s) k); [lia|]. cbn [orb] in *.
-          match goal with H : existsb _ _ = true |- _ => apply (Hkeys Hc) in H; rewrite Hph in H end. lia.
-      + (* no flag (or only WAITING_FOR_BATCH): the first channel_ready *)
-        assert (Hph : ann_phase s = false) by (unfold ann_phase; rewrite Hready, Htheir; reflexivity).
-        destruct (Hpre Hc Hph) as (Hcn & pn & Epn & Apn).
-        assert (Hfresh : existsb (fun kp : Z * point => fst kp =? cp_next s) (p_ann g) = false).
-        { destruct (existsb _ (p_ann g)) eqn:E; [|reflexivity]. apply (Hkeys Hc) in E. rewrite Hph in E. lia. }
-        cbn [chk_all chk]. rewrite Hsigned, Hfresh. eexists. split; [reflexivity|].
-        constructor; unfold ann_phase; sf; cbn [chan_ready their_ready our_ready wfb orb]; intros; try lia; try discriminate; auto.
-        * exists pn. split; [exact Epn|]. apply announced_cons_mono. exact Apn.
-        * exists p. split; [reflexivity|]. apply announced_cons_same.
-        * unfold has_key in *. cbn [existsb fst] in *. destruct (Z.eqb_spec (cp_next s) k); [lia|]. cbn [orb] in *.
-          match goal with H : existsb _ _ = true |- _ => apply (Hkeys Hc) in H; rewrite Hph in H end. lia.
+      apply recv_channel_ready_sim; assumption.
     - (* OOurChannelReady *)
       cbv zeta. destruct (chan_ready (hsk s)) eqn:Hready; [exists g; split; [reflexivity|exact HR0]|].
       destruct (our_ready (hsk s)) eqn:Hour, (their_ready (hsk s)) eqn:Htheir, (wfb (hsk s)) eqn:Hw;
@@ -290,67 +376,20 @@ Section Proofs.
       destruct (Hflags Hc ltac:(assumption) ltac:(assumption)). auto.
     - (* ODisconnect *)
       cbn [fst snd chk_all]. exists g. split; [reflexivity|]. eapply R_core; [|exact HR0]. core_eq.
+    - (* OReload *)
+      cbn [fst snd chk_all]. exists g. split; [reflexivity|]. eapply R_core; [|exact HR0]. core_eq.
     - (* ORecvReest *)
-      cbv zeta.
-      destruct ((nl <? 0) || (nr <? 0)) eqn:Hrange; [exists g; split; [reflexivity|exact HR0]|].
-      destruct (negb (disconnected s)); [apply (close_sim s g [] g); [reflexivity|exact Hvh|exact Hhn]|].
-      destruct ((nl =? 0) || (INITIAL <=? nl) || (INITIAL <=? nr)); [apply (close_sim s g [] g); [reflexivity|exact Hvh|exact Hhn]|].
-      destruct ((0 <? nr) && match sc with SecGarbage => true | _ => false end);
-        [apply (close_sim s g [] g); [reflexivity|exact Hvh|exact Hhn]|].
-      destruct ((0 <? nr) && (INITIAL - (holder_next s + 1) <? nr)).
-      { destruct (match sc with SecMatch => true | _ => false end);
-          [|apply (close_sim s g [] g); [reflexivity|exact Hvh|exact Hhn]].
-        cbn [fst snd chk_all]. exists g. split; [reflexivity|].
-        constructor; sf; intros; try assumption; try discriminate; try reflexivity. }
-      destruct ((0 <? nr) && ((nr =? INITIAL - (holder_next s + 1)) || (nr + 1 =? INITIAL - (holder_next s + 1)))
-                && negb match sc with SecMatch => true | _ => false end);
-        [apply (close_sim s g [] g); [reflexivity|exact Hvh|exact Hhn]|].
-      destruct (Z.ltb_spec (nr + 1) (INITIAL - (holder_next s + 1))) as [_|Hnr];
-        [exists g; split; [reflexivity|exact HR0]|].
-      set (s0 := mkSt secret point (holder_next s) (cp_next s) (awaiting_rr s) false (mon_in_progress s)
-                      (mp_raa s) (mp_cs s) (raa_first s) (cp_cur_point s) (cp_next_point s) false (hsk s)).
-      assert (HR1 : R s0 g) by (eapply R_core; [|exact HR0]; core_eq).
-      assert (Hc0 : closed s0 = false) by reflexivity.
-      destruct (chan_ready (hsk s)) eqn:Hready; cbn [negb].
-      2:{ destruct ((negb (our_ready (hsk s)) || mon_in_progress s) && negb (nr =? 0));
-            [apply (close_sim s0 g [] g); [reflexivity|exact Hvh|exact Hhn]|].
-          cbn [fst snd chk_all]. exists g. split; [reflexivity|exact HR1]. }
-      (* required_revoke *)
-      assert (Hrev : match reest_revoke secret point s0 nr (INITIAL - (holder_next s + 1)) with
-                     | None => True
-                     | Some (s1, raa_evs) =>
-                         closed s1 = false /\ exists g1, chk_all g raa_evs = Some g1 /\ R s1 g1
-                     end).
-      { unfold reest_revoke.
-        destruct (Z.eqb_spec nr (INITIAL - (holder_next s + 1))) as [Enr|Nnr].
-        - split; [reflexivity|]. exists g. split; [reflexivity|].
-          eapply R_mpraa_weaken; [| |exact HR1]; sf; [reflexivity|discriminate].
-        - destruct (Z.eqb_spec (nr + 1) (INITIAL - (holder_next s + 1))) as [Enr1|_]; [|exact I].
-          assert (Hlt : holder_next s < INITIAL - 1) by lia.
-          destruct (mon_in_progress s0).
-          + split; [reflexivity|]. exists g. split; [reflexivity|].
-            eapply R_mpraa_weaken; [| |exact HR1]; sf; [reflexivity|intros _; right; exact Hlt].
-          + split; [reflexivity|]. exists g. split; [|exact HR1].
-            unfold last_raa. cbn [chk_all chk holder_next s0]. rewrite Hsigned, Hvh.
-            replace (holder_next s + 2 =? holder_next s + 1 + 1) with true by lia.
-            replace (holder_next s + 2 <=? INITIAL) with true by lia. reflexivity. }
-      destruct (reest_revoke secret point s0 nr (INITIAL - (holder_next s + 1))) as [[s1 raa_evs]|];
-        [|apply (close_sim s0 g [] g); [reflexivity|exact Hvh|exact Hhn]].
-      destruct Hrev as (Hc1 & g1 & Hg1 & HRs1).
-      (* commitment retransmission *)
-      unfold reest_commit.
-      match goal with |- context [if ?c then _ else _] => destruct c end.
-      { cbn [fst snd]. exists g1. split; [exact Hg1|]. eapply R_core; [|exact HRs1]. core_eq. }
-      match goal with |- context [if ?c then _ else _] => destruct c end.
-      { destruct (mon_in_progress s1).
-        - cbn [fst snd]. exists g1. split; [exact Hg1|]. eapply R_core; [|exact HRs1]. core_eq.
-        - cbn [fst snd]. exists g1. split; [|exact HRs1].
-          rewrite chk_all_app, Hg1. unfold last_cs. cbn [chk_all chk].
-          assert (Hs1 : p_signed g1 = false).
-          { destruct (p_signed g1) eqn:E; [pose proof (R_signed _ _ HRs1 E); congruence|reflexivity]. }
-          rewrite Hs1, (R_st _ _ HRs1 Hc1).
-          replace (cp_next s1 =? cp_next s1 + 2 - 2) with true by lia. reflexivity. }
-      eapply close_sim; [exact Hg1|exact (R_vh _ _ HRs1)|exact (R_hn _ _ HRs1)].
+      unfold RevokeLog.reest_with_replay.
+      destruct (reest_core_sim s g nl nr sc HR0 Hc) as (g1 & Hg1 & HR1).
+      destruct (reest_core secret point s nl nr sc) as [s1 evs1]. cbn [fst snd] in *.
+      destruct (closed s1) eqn:Hc1; cbn [orb]; [exists g1; split; assumption|].
+      destruct (disconnected s1); [exists g1; split; assumption|].
+      destruct (pending_ready (hsk s1)) as [pp|]; [|exists g1; split; assumption].
+      set (s1' := set_hs secret point s1 _).
+      assert (HR1' : R s1' g1) by (eapply R_core; [|exact HR1]; unfold s1'; core_eq).
+      destruct (recv_channel_ready_sim s1' g1 pp HR1' Hc1) as (g2 & Hg2 & HR2).
+      destruct (recv_channel_ready s1' pp) as [s2 evs2]. cbn [fst snd] in *.
+      exists g2. split; [rewrite chk_all_app, Hg1; exact Hg2|exact HR2].
     - (* OForceClose *)
       apply (close_sim s g [] g); [reflexivity|exact Hvh|exact Hhn].
     - (* OChainClose *)
@@ -638,8 +677,8 @@ Section Proofs.
 
   Lemma reest_resumes_only_adjacent s nl nr sc :
     closed s = false -> disconnected s = true -> chan_ready (hsk s) = true ->
-    let s' := fst (step s (ORecvReest nl nr sc)) in
-    let evs := snd (step s (ORecvReest nl nr sc)) in
+    let s' := fst (reest_core secret point s nl nr sc) in
+    let evs := snd (reest_core secret point s nl nr sc) in
     let our := INITIAL - (holder_next s + 1) in
     let ncp := INITIAL - cp_next s + (if awaiting_rr s then 1 else 0) in
     closed s' = false -> disconnected s' = false ->
@@ -649,7 +688,7 @@ Section Proofs.
     (forall e, In e evs -> (e = Release (holder_next s + 2) /\ nr + 1 = our) \/
                            (e = SignCounterparty (cp_next s) /\ nl = ncp - 1)).
   Proof.
-    intros Hc Hd Hready. cbv zeta. unfold step. rewrite Hc, Hd. cbn [negb].
+    intros Hc Hd Hready. cbv zeta. unfold reest_core. rewrite Hd. cbn [negb].
     destruct ((nl <? 0) || (nr <? 0)) eqn:Hrange; [cbn [fst snd]; congruence|].
     destruct ((nl =? 0) || (INITIAL <=? nl) || (INITIAL <=? nr)); [cbn [fst snd closed close]; discriminate|].
     destruct ((0 <? nr) && match sc with SecGarbage => true | _ => false end) eqn:Hg;
@@ -697,7 +736,7 @@ Section Proofs.
       the other flags are, leaves both stored points untouched, announces nothing, and either is a
       no-op or closes the channel. *)
   Lemma channel_ready_points_immutable s p :
-    closed s = false ->
+    closed s = false -> disconnected s = false ->
     (chan_ready (hsk s) = true \/ (their_ready (hsk s) = true /\ our_ready (hsk s) = false)) ->
     let s' := fst (step s (ORecvChannelReady p)) in
     let evs := snd (step s (ORecvChannelReady p)) in
@@ -705,19 +744,14 @@ Section Proofs.
     (forall k q, ~ In (Announce k q) evs) /\
     (closed s' = false -> s' = s /\ evs = []).
   Proof.
-    intros Hc Hph. cbv zeta. unfold step. rewrite Hc. unfold RevokeLog.recv_channel_ready.
-    destruct (disconnected s); [cbn [fst snd]; repeat split; auto; intros k q []|].
-    assert (E : fst (if chan_ready (hsk s) then (true, hsk s)
-                     else if their_ready (hsk s) && negb (our_ready (hsk s)) then (true, hsk s)
-                     else if negb (their_ready (hsk s)) && negb (our_ready (hsk s))
-                          then (false, mkHs secret false false true (wfb (hsk s)) (sec1 (hsk s)))
-                     else if our_ready (hsk s) && negb (their_ready (hsk s)) && negb (wfb (hsk s))
-                          then (false, mkHs secret true false false false (sec1 (hsk s)))
-                     else (false, hsk s)) = true).
-    { destruct Hph as [->|[-> ->]]; [reflexivity|]. destruct (chan_ready (hsk s)); reflexivity. }
+    intros Hc Hd Hph. cbv zeta. unfold step. rewrite Hc. unfold RevokeLog.recv_channel_ready. rewrite Hd.
+    set (dec := if chan_ready (hsk s) then _ else _).
+    assert (E : fst dec = true).
+    { unfold dec. destruct Hph as [->|[-> ->]]; [reflexivity|]. destruct (chan_ready (hsk s)); reflexivity. }
     rewrite E. destruct (opt_point_eqb _ _ _ _); cbn [fst snd close]; sf.
     - repeat split; auto; try (intros k q []).
-    - repeat split; auto; try discriminate; try (intros k q [H|[]]; discriminate H).
+    - destruct (chan_ready (hsk s) || negb (wfb (hsk s)));
+        repeat split; auto; try discriminate; try (intros k q [H|[]]; discriminate H); try (intros k q []).
   Qed.
 
   (* ---------------------------------------------------------------------------------------- *)
